@@ -296,6 +296,40 @@ fn do_ssh(rep: &mut Report, w: &World, c: &Case) {
             // (2) shape: …, host, service, quoted path
             let n = argv.len();
             let expected_path = gix_url::expand_path::for_shell(c.path.clone().into());
+            // (3) a repository path that looks like an option must be refused before anything is spawned
+            let dash_path = expected_path.trim().first() == Some(&b'-');
+            if dash_path {
+                rep.oracle_failure(
+                    &format!("dash-path-not-refused {key}"),
+                    &format!("the ssh program was spawned although the repository path {:?} starts with '-'", show(&expected_path)),
+                    &op,
+                );
+            }
+            // (4) what the REMOTE shell makes of the command ssh sends (its arguments after the host, joined by
+            // blanks): exactly the service and the path, and no word after the service starts with '-'
+            let sampled = c.path.iter().fold(0u32, |h, b| h.wrapping_mul(31).wrapping_add(*b as u32)) % 4 == 0;
+            if n >= 2 && (dash_path || sampled || c.path.contains(&b'-')) {
+                let mut line = argv[n - 2].clone();
+                line.push(b' ');
+                line.extend_from_slice(&argv[n - 1]);
+                let words = sh_words(w, &line);
+                rep.oracle_checked();
+                rep.bucket("ssh:remote-command-resplit");
+                if let Some(opt) = words.iter().skip(1).find(|x| x.first() == Some(&b'-')) {
+                    rep.oracle_failure(
+                        &format!("remote-option-injected {key}"),
+                        &format!("the remote shell splits {:?} into {:?}: git-upload-pack is handed the option {:?}", show(&line), words.iter().map(|x| show(x)).collect::<Vec<_>>(), show(opt)),
+                        &op,
+                    );
+                }
+                if words.len() != 2 || words[0] != b"git-upload-pack" || words[1] != expected_path.to_vec() {
+                    rep.oracle_failure(
+                        &format!("remote-command-words {key}"),
+                        &format!("the remote shell splits {:?} into {:?}, expected [git-upload-pack, {:?}]", show(&line), words.iter().map(|x| show(x)).collect::<Vec<_>>(), show(&expected_path)),
+                        &op,
+                    );
+                }
+            }
             if n < 3 || argv[n - 2] != b"git-upload-pack" || argv[n - 1] != gix_quote::single(expected_path.as_bstr()).to_vec() {
                 rep.oracle_failure(&format!("argv-shape {key}"), &format!("unexpected argv tail {:?}", argv.iter().map(|x| show(x)).collect::<Vec<_>>()), &op);
             }
@@ -398,6 +432,23 @@ fn do_pathsafe(rep: &mut Report, p: &[u8]) {
     }
 }
 
+/// the words `/bin/sh` splits `line` into (`printf '%s\0' <line>`)
+fn sh_words(w: &World, line: &[u8]) -> Vec<Vec<u8>> {
+    let mut script = b"printf '%s\\0' ".to_vec();
+    script.extend_from_slice(line);
+    let out = std::process::Command::new("/bin/sh")
+        .arg("-c")
+        .arg(std::ffi::OsString::from_vec(script))
+        .current_dir(&w.scratch.path)
+        .env_clear()
+        .env("PATH", "/usr/bin:/bin")
+        .output()
+        .expect("run /bin/sh");
+    let mut v: Vec<Vec<u8>> = out.stdout.split(|b| *b == 0).map(|s| s.to_vec()).collect();
+    v.pop();
+    v
+}
+
 /// `/bin/sh` evaluates `printf '%s\0' <word>` for each quoted word; every word must come back as exactly
 /// one argument with the original bytes.
 fn sh_check(rep: &mut Report, w: &World, batch: &[(Vec<u8>, Vec<u8>, String)]) {
@@ -463,6 +514,12 @@ fn gen_component(r: &mut Rng) -> Option<String> {
 }
 
 fn gen_path(r: &mut Rng) -> Vec<u8> {
+    if r.chance(1, 10) {
+        // scp-like paths that look like options (`host:--upload-pack=evil`), also behind `/~` and white space
+        let mut p = r.pick(&["", "", "", "/~/", "/~u/", " ", "\t", "\u{a0}"]).as_bytes().to_vec();
+        p.extend(r.pick(&["-", "--", "-x", "--upload-pack=evil", "-oProxyCommand=x", "--exec=sh", "-u", "--help", "---", "-'q'", "- x", "--a b"]).as_bytes());
+        return p;
+    }
     let mut p: Vec<u8> = match r.below(12) {
         0 => b"/~/".to_vec(),
         1 => b"/~user/".to_vec(),
@@ -598,7 +655,7 @@ fn main() {
             }
         }
     }
-    for path in ["-oProxyCommand=x", " -x", "\u{2003}-x", "/~/-x", "/~user/repo", "/~", "/-x", "", "/~-u/x", "/it's/a!b", "/a\nb", "/$(touch x)"] {
+    for path in ["--upload-pack=evil", "-", "--", "-u", "/~/--upload-pack=evil", "/~u/-x", "-oProxyCommand=x", " -x", "\u{2003}-x", "/~/-x", "/~user/repo", "/~", "/-x", "", "/~-u/x", "/it's/a!b", "/a\nb", "/$(touch x)"] {
         corpus.push(Case { path: path.as_bytes().to_vec(), ..base.clone() });
         corpus.push(Case { path: path.as_bytes().to_vec(), via_shell: true, ..base.clone() });
     }
